@@ -25,7 +25,7 @@ def deferred_pending(r: Ref['obj']) -> bool:
 def alarm_ok(self: Ref['mqtt.client.pubsubs.MQTTProtocol'], r: Ref['obj'], f: int) -> bool:
     """r.alarm is None, or the single ACTIVE retry timer of r: it will call f(r) on self"""
     return (is_none(r.alarm) or
-            (isa(r.alarm, 'DelayedCall') and r.alarm.t_status == 0 and r.alarm.t_fn == f
+            (isa(r.alarm, 'DelayedCall') and is_int(r.alarm.t_status) and r.alarm.t_status == 0 and is_int(r.alarm.t_fn) and r.alarm.t_fn == f
              and r.alarm.t_owner == self and r.alarm.t_arg == r))
 
 
@@ -70,7 +70,8 @@ def unsub_ok(self: Ref['mqtt.client.pubsubs.MQTTProtocol'], r: Ref['mqtt.pdu.UNS
 def rx_ok(r: Ref['mqtt.pdu.PUBLISH']) -> bool:
     """an inbound QoS 2 PUBLISH held until its PUBREL"""
     return (isa(r, 'mqtt.pdu.PUBLISH') and is_int(r.msgId) and 0 <= r.msgId and r.msgId <= 65535 and r.qos == 2
-            and is_str(r.topic) and is_bytes(r.payload) and is_bool(r.dup) and is_bool(r.retain))
+            and is_str(r.topic) and is_bytes(r.payload) and is_bool(r.dup) and is_bool(r.retain)
+            and is_unset(r.deferred) and is_unset(r.alarm))
 
 
 @spec
@@ -78,7 +79,7 @@ def queued_ok(r: Ref['mqtt.pdu.PUBLISH']) -> bool:
     """a PUBLISH accepted by publish() and not yet transmitted"""
     return (isa(r, 'mqtt.pdu.PUBLISH') and is_bytes(r.encoded) and len(as_bytes(r.encoded)) >= 1
             and is_int(r.qos) and 0 <= r.qos and r.qos <= 2 and is_bool(r.retain) and is_str(r.topic)
-            and isa(r.deferred, 'Deferred')
+            and isa(r.deferred, 'Deferred') and is_unset(r.alarm)
             and ((r.qos == 0 and is_none(r.msgId) and is_none(r.interval))
                  or (r.qos > 0 and is_int(r.msgId) and 1 <= r.msgId and r.msgId <= 65535 and deferred_pending(r)
                      and is_int(r.retries) and isa(r.interval, 'mqtt.client.interval.IntervalLinear') and wf_linear(r.interval))))
@@ -142,12 +143,23 @@ def inv_X(self: Ref['mqtt.client.pubsubs.MQTTProtocol']) -> bool:
 @spec
 def inv_Q(self: Ref['mqtt.client.pubsubs.MQTTProtocol']) -> bool:
     return (dq_head(Q(self)) <= dq_tail(Q(self))
-            and forall(lambda j: implies(dq_head(Q(self)) <= j and j < dq_tail(Q(self)), queued_ok(dq_at(Q(self), j)))))
+            and forall(lambda j: implies(dq_head(Q(self)) <= j and j < dq_tail(Q(self)),
+                                         queued_ok(dq_at(Q(self), j)) and dq_at(Q(self), j).q_pos == j)))
+
+
+@spec
+def not_an_outer(self: Ref['mqtt.client.pubsubs.MQTTProtocol'], d: Ref['dict']) -> bool:
+    """d is none of the factory's six per-address tables themselves"""
+    return (d != as_ref(self.factory.queuePublishTx) and d != as_ref(self.factory.windowPublish)
+            and d != as_ref(self.factory.windowPubRelease) and d != as_ref(self.factory.windowPubRx)
+            and d != as_ref(self.factory.windowSubscribe) and d != as_ref(self.factory.windowUnsubscribe))
 
 
 @spec
 def distinct_containers(self: Ref['mqtt.client.pubsubs.MQTTProtocol']) -> bool:
-    return (W(self) != R(self) and W(self) != S(self) and W(self) != U(self) and W(self) != X(self)
+    return (not_an_outer(self, W(self)) and not_an_outer(self, R(self)) and not_an_outer(self, S(self))
+            and not_an_outer(self, U(self)) and not_an_outer(self, X(self))
+            and W(self) != R(self) and W(self) != S(self) and W(self) != U(self) and W(self) != X(self)
             and R(self) != S(self) and R(self) != U(self) and R(self) != X(self) and S(self) != U(self)
             and S(self) != X(self) and U(self) != X(self))
 
